@@ -287,10 +287,16 @@ def run_shard(ctx):
                     m.isdir = False
                     field = "md5" if name.startswith("md5") else name
                     val = "%032x" % rng.getrandbits(128)
-                    setattr(m, field, None)
+                    # the Meta may itself carry a value under the hash's name (e.g. the raw-bytes md5 reported by a remote for an
+                    # md5-dos2unix entry): that slot belongs to the hash in the listing; the hash must win
+                    setattr(m, field, rng.choice([None, None, "%032x" % rng.getrandbits(128), val[:-2] + "-2"]))
                     h = HashInfo(name, val)
                     t.add(k, m, h)
-                    exp[k] = (mproj(m), val)
+                    import copy as _c
+
+                    mm = _c.copy(m)
+                    setattr(mm, field, None)
+                    exp[k] = (mproj(mm), val)
                 res.count("tree_list_roundtrips")
                 res.nontrivial("tree", sorted(exp.items(), key=repr), name)
                 back = Tree.from_list(t.as_list(with_meta=True), hash_name=name)
